@@ -639,25 +639,37 @@ package iavl
 // one (get, has) or two (getByIndex, pathToLeaf) nodes per level — the per-level clauses of those functions —
 // so a proof costs at most h (Has) + h (GetWithIndex) + 2*2h (GetByIndex) + 2*2h (createExistenceProof) reads.
 //@ func (*ImmutableTree).GetMembershipProof(t, key) (proof, err)
-//@   props C11
+//@   props C11 C03
 //@   nosafety
 //@   opaquecalls
+//@   callsite createExistenceProof [proof-for-the-key-asked] arg0 == t && arg1 == key
+//@   ensures [absent-key-is-an-error-never-a-proof] calls("createExistenceProof") == 1 && result("createExistenceProof@1", 1) != nil ==> err != nil && proof == nil
 //@   ensures [one-descent] calls("createExistenceProof") <= 1 && calls("ImmutableTree).Has$") + calls("ImmutableTree).Get") + calls("Node).") + calls("Iterat") + calls("raverse") == 0
 //@   modifies *
 //@ func (*ImmutableTree).GetNonMembershipProof(t, key) (proof, err)
-//@   props C11
+//@   props C11 C03
 //@   nosafety
 //@   opaquecalls
+//@   callsite ImmutableTree).GetWithIndex$ [rank-of-the-key-asked] arg0 == t && arg1 == key
+//@   callsite ImmutableTree).GetByIndex$@1 [left-neighbour-is-the-key-before] idx >= 1 && arg0 == t && arg1 == idx - 1
+//@   callsite ImmutableTree).GetByIndex$@2 [right-neighbour-is-the-key-at-the-rank] arg0 == t && arg1 == idx
+//@   callsite createExistenceProof@1 [left-proof-is-for-the-left-neighbour] arg0 == t && arg1 == leftkey
+//@   callsite createExistenceProof@2 [right-proof-is-for-the-right-neighbour] arg0 == t && arg1 == rightkey && rightkey != nil
+//@   ensures [present-key-is-an-error-never-a-proof] calls("ImmutableTree).GetWithIndex$") == 1 && result("ImmutableTree).GetWithIndex$@1", 2) == nil && result("ImmutableTree).GetWithIndex$@1", 1) != nil ==> err != nil && proof == nil
+//@   ensures [lookup-failure-is-an-error] calls("ImmutableTree).GetWithIndex$") == 1 && result("ImmutableTree).GetWithIndex$@1", 2) != nil ==> err != nil && proof == nil
 //@   ensures [five-descents] calls("ImmutableTree).GetWithIndex$") <= 1 && calls("ImmutableTree).GetByIndex$") <= 2 && calls("createExistenceProof") <= 2
 //@   ensures [no-other-descent] calls("ImmutableTree).Has$") + calls("ImmutableTree).Get$") + calls("MembershipProof$") + calls("ImmutableTree).GetProof$") + calls("Node).") + calls("Iterat") + calls("raverse") == 0
 //@   modifies *
 
 //@ func (*ImmutableTree).GetProof(t, key) (proof, err)
-//@   assumed the proof construction itself is not yet under contract: isProofFor names its result (the descent count below is proved on the body)
-//@   props C11
+//@   assumed the proof construction itself is not yet under contract: isProofFor names its result (the dispatch and the descent count below are proved on the body)
+//@   props C11 C03
 //@   opaquecalls
 //@   requires t != nil
 //@   ensures err == nil ==> isProofFor(proof, old(tview(t.root)), ord(key))
+//@   callsite ImmutableTree).Has$ [existence-of-the-key-asked] arg0 == t && arg1 == key
+//@   callsite GetMembershipProof$ [membership-only-when-present] arg0 == t && arg1 == key && result("ImmutableTree).Has$@1", 0)
+//@   callsite GetNonMembershipProof$ [non-membership-only-when-absent] arg0 == t && arg1 == key && !result("ImmutableTree).Has$@1", 0)
 //@   ensures [existence-test-plus-one-builder] calls("ImmutableTree).Has$") <= 1 && calls("GetMembershipProof$") + calls("GetNonMembershipProof$") <= 1 && calls("ImmutableTree).Get$") + calls("ImmutableTree).GetWithIndex") + calls("ImmutableTree).GetByIndex") + calls("createExistenceProof") + calls("Node).") + calls("Iterat") + calls("raverse") == 0
 //@   modifies Node.hash[*], Node.leftNode[*], Node.rightNode[*], nodeDB.mtx[*], Statistics.*[*]
 
@@ -941,11 +953,18 @@ package iavl
 //@ func convertVarIntToBytes(orig, buf) (r)
 //@   props C03
 //@   ensures [varint] r != nil && len(r) == vlen(orig) && isUvarintContent(ord(r), len(r), zigzag(orig))
+// each step of the path is rendered from its own height, size and version, in that order (the preimage prefix of an inner node)
+//@ func convertInnerOps(path) (steps)
+//@   props C03
+//@   nosafety
+//@   callsite convertVarIntToBytes@1 [height-first] 0 <= i && i < len(path) && arg0 == path[i].Height
+//@   callsite convertVarIntToBytes@2 [then-size] arg0 == path[i].Size
+//@   callsite convertVarIntToBytes@3 [then-version] arg0 == path[i].Version
+//@   modifies *
+
 //@ func convertLeafOp(version) (op)
 //@   props C03
 //@   ensures [prefix-length] op != nil && len(op.Prefix) == 2 + vlen(version)
-//@ func convertInnerOps(path) (ops)
-//@   summary
 
 // ---------------------------------------------------------------- mutable_tree.go: LoadVersion discards the uncommitted working state (C01/C07/C09)
 //
